@@ -65,7 +65,7 @@ let frags_of s = List.map str_of_hex (split_on ',' s)
 let () =
   reg "req" (fun a -> match a with [inst; strict; _cont; concat; xlate; mc; mk; frags] ->
       let cfg = { c_lim = limits_of inst (strict = "1"); c_max_content = n_of_decstr mc; c_max_chunk = n_of_decstr mk;
-                  c_translate_head = (xlate = "1"); c_concat = (concat = "1") } in
+                  c_translate_head = (xlate = "1" || xlate = "3"); c_concat = (concat = "1"); c_defer_continue = (xlate = "2" || xlate = "3") } in
       let (((v, evs), calls), oof) = feed cfg (rv_init cfg) (frags_of frags) in
       (* what is retained after each read (C06) *)
       let maxret = ref N0 in
